@@ -17,8 +17,8 @@ I_SPECIAL = [0, 1, -1, 63, -64, (1 << 63) - 1, -(1 << 63), -(1 << 63) + 1, 1 << 
 
 
 class Gen:
-    def __init__(self, sch, rng, max_depth=4, big=False):
-        self.sch, self.rng, self.max_depth, self.big = sch, rng, max_depth, big
+    def __init__(self, sch, rng, max_depth=4, big=False, tiny=False):
+        self.sch, self.rng, self.max_depth, self.big, self.tiny = sch, rng, max_depth, big, tiny
         self.strpool = [b'', b'a', b'ab', b'abc', b'k1', b'k2', b'key', b'value', b'x' * 40,
                         bytes([0, 255, 128]), b'\xc3\xa9', b'service.name', b'host', b'zz']
 
@@ -43,6 +43,8 @@ class Gen:
             if k == 1: return '%016x' % (0x3ff0000000000000 + (r.below(1 << 20) << 32))
             return '%016x' % r.next()
         # string / bytes
+        if self.tiny:
+            return r.choice([b'', b'a', b'ab', b'k1', b'xyz']).hex()
         k = r.below(5)
         if k < 3:
             return r.choice(self.strpool).hex()
@@ -55,6 +57,8 @@ class Gen:
 
     def length(self, is_map):
         r = self.rng
+        if self.tiny:
+            return r.choice([0, 0, 1, 1, 2])
         k = r.below(20)
         if k < 4: return 0
         if k < 12: return 1 + r.below(3)
@@ -202,9 +206,9 @@ def gen_opts(rng, tier_full=True, allow_zstd=True):
     return o
 
 
-def gen_history(sch, root, rng, nrec, big=False):
+def gen_history(sch, root, rng, nrec, big=False, tiny=False):
     """ops: set/w with occasional f; values evolve by mutation"""
-    g = Gen(sch, rng, big=big)
+    g = Gen(sch, rng, big=big, tiny=tiny, max_depth=2 if tiny else 4)
     rid = [i for i, s in enumerate(sch['structs']) if s['name'] == root][0]
     t = {'k': 'struct', 'id': rid}
     cur = g.value(t)
